@@ -188,25 +188,62 @@ def rule_classmap_2d(ctx, rid):
     return maps.get(('energy', True))
 
 
+def _is_shape0(t):
+    return t[0] == 'sub' and t[2] == C(0) and t[1][0] == 'attr' and t[1][2] == 'shape'
+
+
+def _is_shape1(t):
+    return t[0] == 'sub' and t[2] == C(1) and t[1][0] == 'attr' and t[1][2] == 'shape'
+
+
+def _time_index_form(X):
+    """Is X the sample (row) index broadcast over the IMF columns?  Returns the number-of-samples term or None.
+    Accepted constructions (all give X[t, m] == t):  tile(arange(n), (m, 1)).T ;  repeat(arange(n)[:, None], m, axis=1) ;
+    broadcast_to(arange(n)[:, None], (n, m)) ;  indices((n, m))[0] ;  meshgrid(arange(n), arange(m), indexing='ij')[0]."""
+    from ..poly import _shape_only_index
+
+    def arange_n(t):
+        if t[0] == 'call' and t[1] == 'numpy.arange' and len(t[2]) == 1 and not t[3] and _is_shape0(t[2][0]):
+            return t[2][0]
+        return None
+    if X[0] == 'attr' and X[2] == 'T' and X[1][0] == 'call' and X[1][1] == 'numpy.tile' and len(X[1][2]) == 2:
+        n = arange_n(X[1][2][0])
+        reps = X[1][2][1]
+        if n is not None and reps[0] == 'tuple' and len(reps[1]) == 2 and reps[1][1] == C(1):
+            return n
+    if X[0] == 'call' and X[1] in ('numpy.repeat', 'numpy.broadcast_to') and len(X[2]) >= 2:
+        base = X[2][0]
+        if base[0] == 'sub' and _shape_only_index(base[2]) and base[2][0] == 'tuple' and len(base[2][1]) == 2 \
+                and base[2][1][0][0] == 'slice':
+            n = arange_n(base[1])
+            if n is not None:
+                if X[1] == 'numpy.repeat' and dict(X[3]).get('axis', X[2][2] if len(X[2]) > 2 else None) == C(1):
+                    return n
+                if X[1] == 'numpy.broadcast_to':
+                    return n
+    if X[0] == 'sub' and X[2] == C(0) and X[1][0] == 'call' and X[1][1] == 'numpy.indices' and X[1][2] \
+            and X[1][2][0][0] == 'tuple' and _is_shape0(X[1][2][0][1][0]):
+        return X[1][2][0][1][0]
+    if X[0] == 'sub' and X[2] == C(0) and X[1][0] == 'call' and X[1][1] == 'numpy.meshgrid' and len(X[1][2]) == 2 \
+            and dict(X[1][3]).get('indexing') == C('ij'):
+        return arange_n(X[1][2][0])
+    return None
+
+
 def _check_time_index(rows, cols, shape):
     # rows = Y.reshape(-1)[G] ; cols = X.reshape(-1)[G]
     if not (rows[0] == 'sub' and cols[0] == 'sub'):
         return '?row/column coordinates are not filtered vectors'
     if rows[2] != cols[2]:
         return 'row and time coordinates are filtered by different masks'
-    Y = rows[1]
     X = cols[1]
-    while Y[0] == 'meth' and Y[1] in ('reshape', 'ravel', 'flatten'):
-        Y = Y[2]
     while X[0] == 'meth' and X[1] in ('reshape', 'ravel', 'flatten'):
         X = X[2]
-    n0 = ('sub', ('attr', Y, 'shape'), C(0))
-    n1 = ('sub', ('attr', Y, 'shape'), C(1))
-    pat1 = ('attr', ('call', 'numpy.tile', (('call', 'numpy.arange', (n0,), ()), ('tuple', (n1, C(1)))), ()), 'T')
-    if X == pat1:
+    n = _time_index_form(X)
+    if n is not None:
         if shape is not None and shape[0] == 'tuple' and len(shape[1]) == 2:
             w = shape[1][1]
-            if w not in (n0, ('sub', ('attr', X, 'shape'), C(0))):
+            if not _is_shape0(w):
                 return 'spectrum width %s is not the number of samples' % show(w)[:40]
         return None
     # anything arithmetic on the time index is a violation; unknown constructions are undecided
@@ -409,6 +446,12 @@ def rule_bins(ctx, rid):
             n_ok = it[0] == 'call' and it[1] == 'builtins.range' and len(it[2]) == 1 and \
                 alg.poly(it[2][0]) == alg.poly(('bin', '-', ('call', 'builtins.len', (edges,), ()), C(1)))
             ok = alg.poly(t[2]) == want and n_ok
+        if t[0] == 'comp' and not ok:
+            var, it, _ = t[3][0]
+            lo_s = ('sub', edges, ('slice', NONE, C(-1), NONE))
+            hi_s = ('sub', edges, ('slice', C(1), NONE, NONE))
+            if var[0] == 'tuple' and len(var[1]) == 2 and it == ('call', 'builtins.zip', (lo_s, hi_s), ()):
+                ok = alg.poly(t[2]) == alg.poly(('bin', '/', ('bin', '+', var[1][0], var[1][1]), C(2)))
         elif t[0] == 'bin':
             want = alg.poly(('bin', '/', ('bin', '+', ('sub', edges, ('slice', NONE, C(-1), NONE)),
                                           ('sub', edges, ('slice', C(1), NONE, NONE))), C(2)))
@@ -422,17 +465,13 @@ def rule_bins(ctx, rid):
 
 
 def rule_dimchecks(ctx, rid):
+    from .common import dim_checks
     P = ctx.P
     fi = P.func(HH)
-    calls = []
-    for c in P.calls_in(fi):
-        ca = P.resolve_callee(fi.module, fi, c.func)
-        if ca.dotted in ('emd.support.ensure_2d', 'emd.support.ensure_equal_dims'):
-            names = sorted({n.id for n in ast.walk(c.args[0]) if isinstance(n, ast.Name)}) if c.args else []
-            calls.append((ca.dotted.split('.')[-1], names))
+    per_path = dim_checks(P, fi, {'mode': 'energy', 'return_sparse': False})
     for fn in ('ensure_2d', 'ensure_equal_dims'):
         c = '%s is applied to frequency and amplitude' % fn
-        ok = any(f == fn and set(names) >= {'infr', 'inam'} for f, names in calls)
+        ok = bool(per_path) and all(any(f == fn and nm >= {'infr', 'inam'} for f, nm, d in calls) for calls in per_path)
         if ok:
             ctx.passed(rid, fi, c)
         else:
